@@ -30,7 +30,8 @@ def run(rep, tier, seed, replay=None):
         v = by_id.get(case.split(" ", 1)[0])
         if v is None or out:
             return out
-        port = int(case.split(" ")[2 + netprops.FAMILIES[v.fam]["port"]])
+        fd = netprops.FAMILIES[v.fam]
+        port = fd["fixed_port"] if "fixed_port" in fd else int(case.split(" ")[2 + fd["port"]])
         sends = vlib.sends_of(impl)
         got = [d for (_, _, d, _) in sends]
         rep.count(f"requests:{len(got)}")
